@@ -81,7 +81,7 @@ def gen_plan(r):
         "requests": [(r.choice(["GET", "POST"]), r.choice([0, 0, 5, 2000])) for _ in range(nreq)],
         "send_gap": r.choice([0, 0, 0.3]),
         # per upstream connection attempt
-        "connect": [r.choice(["ok", "ok", "ok", "refuse", "hang", "slow"]) for _ in range(3)],
+        "connect": [r.choice(["ok", "ok", "ok", "refuse", "refuse-bare", "timeout-bare", "oserror-bare", "gaierror-bare", "hang", "slow"]) for _ in range(3)],
         "connect_delay": r.choice([0, 0.01, 1, 4]),
         # origin behaviour per request
         "origin": [r.choice(["answer", "answer", "answer", "partial-eof", "silent", "reset", "answer-close"]) for _ in range(3)],
@@ -113,6 +113,17 @@ def run_plan(plan):
             await asyncio.sleep(plan["connect_delay"])
         if how == "refuse":
             raise ConnectionRefusedError("Connection refused (injected)")
+        # failures whose str() is empty: the handler must still report a connect failure (seeded change C29-6)
+        if how == "refuse-bare":
+            raise ConnectionRefusedError()
+        if how == "timeout-bare":
+            raise TimeoutError()
+        if how == "oserror-bare":
+            raise OSError()
+        if how == "gaierror-bare":
+            import socket
+
+            raise socket.gaierror()
         if how == "hang":
             await asyncio.Event().wait()
         if how == "slow":
